@@ -1968,6 +1968,9 @@ impl GlobalInferenceCtx<'_> {
                                 break 'switch Ty::Unknown.into();
                             }
 
+                            // the variants of a distinct sum type are the variants of its inner type
+                            let sum_ty = scrutinee_ty.absolute_intern_ty(false);
+
                             // resolve all arm types beforehand
                             let mut type_resolution_error = false;
                             for arm in arms {
@@ -2009,7 +2012,7 @@ impl GlobalInferenceCtx<'_> {
                                             continue;
                                         }
 
-                                        let Ty::Enum { ref variants, .. } = *scrutinee_ty else {
+                                        let Ty::Enum { ref variants, .. } = *sum_ty else {
                                             unreachable!();
                                         };
 
@@ -2071,7 +2074,7 @@ impl GlobalInferenceCtx<'_> {
                                 }
                             }
 
-                            let mut variants: Vec<VariantToCheck> = match *scrutinee_ty {
+                            let mut variants: Vec<VariantToCheck> = match *sum_ty {
                                 Ty::Optional { sub_ty } => {
                                     vec![sub_ty.into(), Intern::new(Ty::Nil).into()]
                                 }
@@ -2224,7 +2227,9 @@ impl GlobalInferenceCtx<'_> {
 
                             let variant_ty = match this_variant {
                                 ArmVariant::Shorthand(name) => {
-                                    let Ty::Enum { variants, .. } = scrutinee_ty.as_ref() else {
+                                    let Ty::Enum { variants, .. } =
+                                        scrutinee_ty.absolute_ty_keep_variants()
+                                    else {
                                         // an error will be reported so we don't have to do
                                         // anything here
                                         break 'switch_arg Ty::Unknown.into();
